@@ -139,6 +139,20 @@ theorem witness_null_replaced :
     visit {} s v = some (.obj [("a", .str "d")]) ∧ visit (specCtx {}) s v = some v := by
   refine ⟨by decide, by rfl, by rfl⟩
 
+/-- **defaults_only_absent_partial (model = spec).**  Full statement: the code's forwarding `visit c` is the
+property's `visit (specCtx c)` (defaults for ABSENT properties only) on every value.  It fails on the pinned code
+(`witness_null_replaced`, finding #24); it holds outside the class `NullReplaced` = "the received value has an
+explicit null member" (for schemas whose defaults have none either) — at any depth, through arrays and
+compositions. -/
+theorem defaults_only_absent_partial (c : Ctx) (s : S) (hc : cleanDefaults s = true) (v : J)
+    (hn : hasNullProp v = false) : visit c s v = visit (specCtx c) s v :=
+  ((visit_agree c s hc) v hn).1.symm
+
+/-- … and the forwarded value has no explicit null member either (so the statement applies to it again). -/
+theorem no_null_member_introduced (c : Ctx) (s : S) (hc : cleanDefaults s = true) (v v' : J)
+    (hn : hasNullProp v = false) (h : visit c s v = some v') : hasNullProp v' = false :=
+  ((visit_agree c s hc) v hn).2 v' h
+
 /-- **defaults_applied.** After an accepted object visit with default-setting on, no property with an applicable
 default is left absent. -/
 theorem defaults_applied (c : Ctx) (hc : c.setDefaults = true) (a : Attr) (req props addl) (kvs : List (String × J)) (v' : J)
